@@ -36,7 +36,7 @@ def gen_cases(rng, tier):
     per = 80 if tier == "thorough" else 50
     cases = []
     ctxs = [_qty.predefined_ctx() for _ in range(n_pre)] + \
-           [_qty.user_ctx(rng, rng.randint(8, 16)) for _ in range(n_user)]
+           [_qty.user_ctx(rng, rng.randint(8, 16), undefined_units=.6) for _ in range(n_user)]
     for ctx in ctxs:
         ops = []
         lin = [u for u in ctx.linear_units() if ctx.quantum(u) is None]
@@ -49,6 +49,15 @@ def gen_cases(rng, tier):
             ops.append(["q_hash", f"{_qty.tok(rng, x)}@{u}", f"{_qty.tok(rng, y)}@{v}"])
             if rng.random() < .15:
                 ops.append(["u_hash", u, v])
+        # units WITHOUT scale (declared without definition, in types with and
+        # without reference unit): quantities in two different ones
+        for cname in ctx.classes:
+            und = [x for x in ctx.units if ctx.units[x]["cls"] == cname and ctx.units[x]["scale"] is None]
+            for x in und[:3]:
+                for y in und[:3]:
+                    k = _qty.amount(rng)
+                    ops.append(["q_hash", f"{_qty.tok(rng, k)}@{x}", f"{_qty.tok(rng, k)}@{y}"])
+                    ops.append(["q_hash", f"5@{x}", f"7@{y}"])
         cases.append(_qty.case_of(ctx, ops, ["hash"]))
     # terms (the C07 generator, equality operations only)
     for c in C07.gen_cases(rng, "quick")[:6 if tier != "thorough" else 40]:
@@ -155,10 +164,14 @@ def oracle(case, impl):
                 want = _qty.tok_value(a) * su == _qty.tok_value(b) * sv
                 if eq != want:
                     fails.append({"site": "hash:eq-wrong", "msg": f"{o} -> {out}"})
+            elif ctx.kind == "user" and u != v and eq:
+                # a unit without scale (no definition / no reference unit, no
+                # converter in these contexts) is convertible to nothing
+                fails.append({"site": "hash:eq-wrong", "msg": f"{o} -> {out}: not convertible, yet equal"})
             if eq and not heq:
                 site = "hash:quantity"
-                if su is None or sv is None:
-                    site = "hash:converter-equality"
+                if (su is None or sv is None) and ctx.classes[ctx.units[u]["cls"]]["ref"] is None:
+                    site = "hash:converter-equality"      # equal through a converter: D13c
                 fails.append({"site": site, "msg": f"{o} -> {out}: equal but hashes differ"})
         elif o[0] == "u_hash":
             if eq and not heq:
